@@ -248,6 +248,8 @@ def rule_py_siblings(ctx, py):
                   "destination amounts", "the diffusion rates are not constant x amount of the respective cell")
     # exported ODE right-hand side
     m = py.fn("rdsystem.RDSystem.make_dxdtf")
+    from .. import pynorm
+    m = pynorm.renamed(m, pynorm.dxdtf_roles(m))     # locals identified by what they are defined as
     rl = [n for n in m.body if isinstance(n, ast.For) and pyfe.src(n.iter) == "reactions"]
     ctx.need(len(rl) == 1, R, "make_dxdtf: loop over the split reactions not found")
     rvar = pyfe.src(rl[0].target)
